@@ -35,11 +35,16 @@ fn ans_str(inst: &Inst) -> String {
                             2 => "ms".to_string(),
                             _ => format!("e{}", f.cache_expires),
                         };
+                        let ss = match f.oti_ss {
+                            None => "-".to_string(),
+                            Some((k, a, b, c)) => format!("{}.{}.{}.{}", k, a, b, c),
+                        };
                         let oti = match f.oti {
                             None => "-".to_string(),
-                            Some((fec, esl, msbl)) => format!("{}:{}:{}", fec, esl, msbl),
+                            Some((fec, esl, msbl)) => format!("{}:{}:{}:{}:{}", fec, esl, msbl, f.oti_parity, ss),
                         };
-                        format!("{}/{}/{}/{}", hex(f.toi.as_bytes()), cc, f.transfer_length, oti)
+                        let cl = f.content_length.map(|x| x.to_string()).unwrap_or_else(|| "-".to_string());
+                        format!("{}/{}/{}/{}/{}/{}", hex(f.toi.as_bytes()), cc, f.transfer_length, oti, cl, f.cenc)
                     })
                     .collect::<Vec<_>>()
                     .join(","),
@@ -1510,8 +1515,9 @@ fn family_review(g: &mut G, rng: &mut Rng, thorough: bool) {
         g.ctx.count("malformed:fdt-fti-length-mismatch");
         let p = mk_pkt(90, None, 16, 2, true, *l_fti as u64, 0, 0, vec![1; 16], false, None);
         g.push(&p, T0);
-        // Content-Length = what the EXT_FTI partition delivers (the length check of e19fa2b is not the subject)
-        let f = String::from_utf8(fdt_xml(&far(8), &[("90".to_string(), *l_fdt)], 16, 2)).unwrap().replace(&format!("Content-Length=\"{}\"", l_fdt), &format!("Content-Length=\"{}\"", l_fti)).into_bytes();
+        // Content-Length follows the FDT's Transfer-Length: when the EXT_FTI partition delivers another number of
+        // bytes the object ends in error (e19fa2b), which the model has through `FileAbs.contentLength`
+        let f = fdt_xml(&far(8), &[("90".to_string(), *l_fdt)], 16, 2);
         for pk in fdt_pkts(&f, 1, 512, None) {
             g.push(&pk, T0 + 1);
         }
@@ -1522,6 +1528,39 @@ fn family_review(g: &mut G, rng: &mut Rng, thorough: bool) {
             }
         }
         g.cleanup(T0 + SEC, false);
+        g.end();
+    }
+
+    // ---- Content-Length decides complete vs error (e19fa2b): the File entry announces the transfer length that
+    //      is delivered, and a Content-Length equal to / smaller / larger than it, or none
+    for (k, cl) in [Some(40usize), Some(39), Some(41), Some(0), None].iter().enumerate() {
+        g.cfg2(&format!("content-length-{}", k), 2, false, true, 1 << 16, true, true, 0, false, 0);
+        g.ctx.nontrivial(&format!("content-length {}", k));
+        g.ctx.count("registry:content-length");
+        let x = String::from_utf8(fdt_xml(&far(10), &[("91".to_string(), 40)], 16, 8)).unwrap();
+        let x = match cl {
+            Some(c) => x.replace("Content-Length=\"40\"", &format!("Content-Length=\"{}\"", c)),
+            None => x.replace("Content-Length=\"40\" ", ""),
+        };
+        for pk in fdt_pkts(x.as_bytes(), 1, 512, None) {
+            g.push(&pk, T0);
+        }
+        // in-band EXT_CENC null on every second packet (read by ObjectReceiver::push)
+        for (i, p) in obj_pkts(91, 40, 16, 8, false, false).iter().enumerate() {
+            if i % 2 == 0 {
+                if let Ok(info) = parse_info(p) {
+                    if let Some((sbn, esi)) = info.pid {
+                        let q = mk_pkt_cenc(91, None, 16, 8, 40, sbn, esi, info.payload.clone(), Cenc::Null);
+                        g.push(&q, T0 + 1 + i as i64);
+                        continue;
+                    }
+                }
+            }
+            g.push(p, T0 + 1 + i as i64);
+        }
+        if *cl == Some(40) || cl.is_none() {
+            g.expect_c(91, 40, "C04:content-length-match-not-delivered");
+        }
         g.end();
     }
 
